@@ -1,1 +1,964 @@
-//! C09: string types against a `String` model (see `run_str_history`).
+//! C09: string types against a `String` model, UTF-8 validity of the raw bytes after every step
+//! (also after panics), C-string constructors, UTF-8/UTF-16 decoding, formatting.
+
+use super::hist::CollParams;
+use super::vecs::VCtx;
+use crate::arena::{PanicKind, classify, guarded};
+use crate::monalloc::{FailPlan, MonHandle, MonState, Policy, Shared, set_current};
+use crate::out::Report;
+use crate::rng::{Rng, hash_str, mix};
+use crate::tr;
+use bump_scope::alloc::AllocError;
+use bump_scope::settings::BumpAllocatorSettings;
+use bump_scope::{BaseAllocator, Bump, BumpBox, BumpScope, BumpString, BumpVec, FixedBumpString, MutBumpString};
+use std::cell::RefCell;
+use std::collections::BTreeSet;
+use std::fmt::Write as _;
+use std::ops::Bound;
+use std::rc::Rc;
+
+pub trait StrLike {
+    fn family(&self) -> &'static str;
+    fn is_fixed(&self) -> bool {
+        false
+    }
+    fn raw(&self) -> (usize, usize); // address, len
+    fn as_str(&self) -> &str;
+    fn capacity(&self) -> usize;
+    fn pop(&mut self) -> Option<char>;
+    fn remove(&mut self, i: usize) -> char;
+    fn truncate(&mut self, n: usize);
+    fn clear(&mut self);
+    fn retain(&mut self, f: &mut dyn FnMut(char) -> bool);
+    fn drain_script(&mut self, r: (Bound<usize>, Bound<usize>), script: &[bool], forget: bool) -> String;
+    fn grow(&mut self) -> Option<&mut dyn StrGrow> {
+        None
+    }
+}
+
+pub trait StrGrow {
+    fn push(&mut self, c: char);
+    fn try_push(&mut self, c: char) -> Result<(), AllocError>;
+    fn push_str(&mut self, s: &str);
+    fn try_push_str(&mut self, s: &str) -> Result<(), AllocError>;
+    fn insert(&mut self, i: usize, c: char);
+    fn try_insert(&mut self, i: usize, c: char) -> Result<(), AllocError>;
+    fn insert_str(&mut self, i: usize, s: &str);
+    fn try_insert_str(&mut self, i: usize, s: &str) -> Result<(), AllocError>;
+    fn replace_range(&mut self, r: (Bound<usize>, Bound<usize>), s: &str);
+    fn try_replace_range(&mut self, r: (Bound<usize>, Bound<usize>), s: &str) -> Result<(), AllocError>;
+    fn extend_from_within(&mut self, r: (Bound<usize>, Bound<usize>));
+    fn try_extend_from_within(&mut self, r: (Bound<usize>, Bound<usize>)) -> Result<(), AllocError>;
+    fn write_fmt3(&mut self, a: &dyn std::fmt::Display, b: u64, c: &str) -> std::fmt::Result;
+    fn reserve(&mut self, n: usize);
+    fn try_reserve(&mut self, n: usize) -> Result<(), AllocError>;
+}
+
+macro_rules! str_core {
+    ($name:literal) => {
+        fn family(&self) -> &'static str {
+            $name
+        }
+        fn raw(&self) -> (usize, usize) {
+            (self.as_non_null().addr().get(), self.len())
+        }
+        fn pop(&mut self) -> Option<char> {
+            Self::pop(self)
+        }
+        fn remove(&mut self, i: usize) -> char {
+            Self::remove(self, i)
+        }
+        fn truncate(&mut self, n: usize) {
+            Self::truncate(self, n)
+        }
+        fn clear(&mut self) {
+            Self::clear(self)
+        }
+        fn retain(&mut self, f: &mut dyn FnMut(char) -> bool) {
+            Self::retain(self, |c| f(c))
+        }
+        fn drain_script(&mut self, r: (Bound<usize>, Bound<usize>), script: &[bool], forget: bool) -> String {
+            let mut d = Self::drain(self, r);
+            let mut out = String::new();
+            let mut back = String::new();
+            for &b in script {
+                let x = if b { d.next_back() } else { d.next() };
+                match x {
+                    Some(c) if b => back.insert(0, c),
+                    Some(c) => out.push(c),
+                    None => break,
+                }
+            }
+            if forget {
+                std::mem::forget(d);
+            } else {
+                drop(d);
+            }
+            out.push('|');
+            out.push_str(&back);
+            out
+        }
+    };
+}
+
+macro_rules! str_grow {
+    () => {
+        fn push(&mut self, c: char) {
+            Self::push(self, c)
+        }
+        fn try_push(&mut self, c: char) -> Result<(), AllocError> {
+            Self::try_push(self, c)
+        }
+        fn push_str(&mut self, s: &str) {
+            Self::push_str(self, s)
+        }
+        fn try_push_str(&mut self, s: &str) -> Result<(), AllocError> {
+            Self::try_push_str(self, s)
+        }
+        fn insert(&mut self, i: usize, c: char) {
+            Self::insert(self, i, c)
+        }
+        fn try_insert(&mut self, i: usize, c: char) -> Result<(), AllocError> {
+            Self::try_insert(self, i, c)
+        }
+        fn insert_str(&mut self, i: usize, s: &str) {
+            Self::insert_str(self, i, s)
+        }
+        fn try_insert_str(&mut self, i: usize, s: &str) -> Result<(), AllocError> {
+            Self::try_insert_str(self, i, s)
+        }
+        fn replace_range(&mut self, r: (Bound<usize>, Bound<usize>), s: &str) {
+            Self::replace_range(self, r, s)
+        }
+        fn try_replace_range(&mut self, r: (Bound<usize>, Bound<usize>), s: &str) -> Result<(), AllocError> {
+            Self::try_replace_range(self, r, s)
+        }
+        fn extend_from_within(&mut self, r: (Bound<usize>, Bound<usize>)) {
+            Self::extend_from_within(self, r)
+        }
+        fn try_extend_from_within(&mut self, r: (Bound<usize>, Bound<usize>)) -> Result<(), AllocError> {
+            Self::try_extend_from_within(self, r)
+        }
+        fn write_fmt3(&mut self, a: &dyn std::fmt::Display, b: u64, c: &str) -> std::fmt::Result {
+            write!(self, "{a}<{b}>{c}")
+        }
+        fn reserve(&mut self, n: usize) {
+            Self::reserve(self, n)
+        }
+        fn try_reserve(&mut self, n: usize) -> Result<(), AllocError> {
+            Self::try_reserve(self, n)
+        }
+    };
+}
+
+impl<'b> StrLike for BumpBox<'b, str> {
+    str_core!("BumpBox<str>");
+    fn as_str(&self) -> &str {
+        self
+    }
+    fn capacity(&self) -> usize {
+        self.len()
+    }
+}
+impl<'b> StrLike for FixedBumpString<'b> {
+    str_core!("FixedBumpString");
+    fn is_fixed(&self) -> bool {
+        true
+    }
+    fn as_str(&self) -> &str {
+        Self::as_str(self)
+    }
+    fn capacity(&self) -> usize {
+        Self::capacity(self)
+    }
+    fn grow(&mut self) -> Option<&mut dyn StrGrow> {
+        Some(self)
+    }
+}
+impl<'b> StrGrow for FixedBumpString<'b> {
+    str_grow!();
+}
+impl<'b, A, S> StrLike for BumpString<&'b BumpScope<'b, A, S>>
+where
+    A: MonHandle + BaseAllocator<S::GuaranteedAllocated>,
+    S: BumpAllocatorSettings,
+{
+    str_core!("BumpString");
+    fn as_str(&self) -> &str {
+        Self::as_str(self)
+    }
+    fn capacity(&self) -> usize {
+        Self::capacity(self)
+    }
+    fn grow(&mut self) -> Option<&mut dyn StrGrow> {
+        Some(self)
+    }
+}
+impl<'b, A, S> StrGrow for BumpString<&'b BumpScope<'b, A, S>>
+where
+    A: MonHandle + BaseAllocator<S::GuaranteedAllocated>,
+    S: BumpAllocatorSettings,
+{
+    str_grow!();
+}
+impl<'b, A, S> StrLike for MutBumpString<&'b mut BumpScope<'b, A, S>>
+where
+    A: MonHandle + BaseAllocator<S::GuaranteedAllocated>,
+    S: BumpAllocatorSettings,
+{
+    str_core!("MutBumpString");
+    fn as_str(&self) -> &str {
+        Self::as_str(self)
+    }
+    fn capacity(&self) -> usize {
+        Self::capacity(self)
+    }
+    fn grow(&mut self) -> Option<&mut dyn StrGrow> {
+        Some(self)
+    }
+}
+impl<'b, A, S> StrGrow for MutBumpString<&'b mut BumpScope<'b, A, S>>
+where
+    A: MonHandle + BaseAllocator<S::GuaranteedAllocated>,
+    S: BumpAllocatorSettings,
+{
+    str_grow!();
+}
+
+pub const ALPHABET: [&str; 9] = ["a", "z", "\0", "é", "ß", "€", "한", "😀", "\u{301}"];
+
+fn text(rng: &mut Rng, max_chars: usize) -> String {
+    let n = rng.range(0, max_chars);
+    (0..n).map(|_| ALPHABET[rng.below(ALPHABET.len())]).collect()
+}
+
+fn gen_idx(rng: &mut Rng, len: usize) -> usize {
+    match rng.below(12) {
+        0 => usize::MAX,
+        1 => len + 1,
+        2 => len,
+        3 => 0,
+        _ => rng.range(0, len + 1),
+    }
+}
+
+fn gen_range(rng: &mut Rng, len: usize) -> (Bound<usize>, Bound<usize>) {
+    let a = gen_idx(rng, len);
+    let b = gen_idx(rng, len);
+    let (a, b) = if a > b && rng.chance(5, 6) { (b, a) } else { (a, b) };
+    let lo = match rng.below(5) {
+        0 => Bound::Unbounded,
+        1 if a > 0 => Bound::Excluded(a - 1),
+        _ => Bound::Included(a),
+    };
+    let hi = match rng.below(5) {
+        0 => Bound::Unbounded,
+        1 => Bound::Included(b),
+        _ => Bound::Excluded(b),
+    };
+    (lo, hi)
+}
+
+struct FailingDisplay(u8, String);
+impl std::fmt::Display for FailingDisplay {
+    fn fmt(&self, f: &mut std::fmt::Formatter<'_>) -> std::fmt::Result {
+        f.write_str(&self.1)?;
+        match self.0 {
+            0 => Ok(()),
+            1 => Err(std::fmt::Error),
+            _ => {
+                tr::burn();
+                f.write_str("€")
+            }
+        }
+    }
+}
+
+fn model_do<R>(f: impl FnOnce() -> R) -> Result<R, ()> {
+    std::panic::catch_unwind(std::panic::AssertUnwindSafe(f)).map_err(|_| ())
+}
+
+enum Real {
+    Ok(String),
+    Err,
+    Injected,
+    AllocPanic,
+    Panic(String),
+}
+fn real_do(f: impl FnOnce() -> Result<String, AllocError>) -> Real {
+    match guarded(f) {
+        Ok(Ok(v)) => Real::Ok(v),
+        Ok(Err(_)) => Real::Err,
+        Err(p) => match classify(&p) {
+            PanicKind::Fuel => Real::Injected,
+            PanicKind::AllocError => Real::AllocPanic,
+            PanicKind::Msg(m) => Real::Panic(m),
+            PanicKind::Injected => Real::Panic("?".into()),
+        },
+    }
+}
+
+fn is_boundary_arg(model: &str, i: usize) -> bool {
+    model.is_char_boundary(i)
+}
+
+/// One generated string operation.
+pub fn step(v: &mut dyn StrLike, model: &mut String, ctx: &mut VCtx) {
+    let len = model.len();
+    let has_grow = v.grow().is_some();
+    let fixed = v.is_fixed();
+    let cap0 = v.capacity();
+    let mut w = [6u32, 8, 6, 2, 5, 8, 0, 0, 0, 0, 0, 0, 0, 0, 0, 0, 0, 0, 0];
+    if has_grow {
+        for (i, x) in [(6, 8), (7, 3), (8, 8), (9, 3), (10, 8), (11, 3), (12, 8), (13, 3), (14, 8), (15, 3), (16, 5), (17, 3), (18, 3)] {
+            w[i] = x;
+        }
+    }
+    let op = ctx.rng.weighted(&w);
+    let mut added = 0usize;
+    let mut idx_arg: Option<usize> = None;
+    let before = model.clone();
+    let (real, modl): (Real, Result<String, ()>) = match op {
+        0 => {
+            ctx.begin("pop".into());
+            (real_do(|| Ok(v.pop().map(String::from).unwrap_or_default())), model_do(|| model.pop().map(String::from).unwrap_or_default()))
+        }
+        1 => {
+            let i = gen_idx(&mut ctx.rng, len);
+            idx_arg = Some(i);
+            ctx.begin(format!("remove {i}"));
+            (real_do(|| Ok(String::from(v.remove(i)))), model_do(|| String::from(model.remove(i))))
+        }
+        2 => {
+            let i = gen_idx(&mut ctx.rng, len);
+            idx_arg = Some(i);
+            ctx.begin(format!("truncate {i}"));
+            (
+                real_do(|| {
+                    v.truncate(i);
+                    Ok(String::new())
+                }),
+                model_do(|| {
+                    model.truncate(i);
+                    String::new()
+                }),
+            )
+        }
+        3 => {
+            ctx.begin("clear".into());
+            (
+                real_do(|| {
+                    v.clear();
+                    Ok(String::new())
+                }),
+                model_do(|| {
+                    model.clear();
+                    String::new()
+                }),
+            )
+        }
+        4 => {
+            let drop_c = ALPHABET[ctx.rng.below(ALPHABET.len())].chars().next().unwrap();
+            let fuel = if ctx.rng.chance(1, 4) { Some(ctx.rng.range(0, model.chars().count() + 1) as u64) } else { None };
+            ctx.begin(format!("retain != {drop_c:?}{}", if fuel.is_some() { " (predicate panics part-way)" } else { "" }));
+            tr::set_fuel(fuel);
+            let r = real_do(|| {
+                v.retain(&mut |c| {
+                    tr::burn();
+                    c != drop_c
+                });
+                Ok(String::new())
+            });
+            tr::set_fuel(None);
+            (
+                r,
+                model_do(|| {
+                    model.retain(|c| c != drop_c);
+                    String::new()
+                }),
+            )
+        }
+        5 => {
+            let r = gen_range(&mut ctx.rng, len);
+            let n = ctx.rng.range(0, 6);
+            let script: Vec<bool> = (0..n).map(|_| ctx.rng.chance(1, 3)).collect();
+            ctx.begin(format!("drain {r:?} pulling {n}"));
+            let s2 = script.clone();
+            (
+                real_do(|| Ok(v.drain_script(r, &s2, false))),
+                model_do(|| {
+                    let mut d = model.drain(r);
+                    let mut out = String::new();
+                    let mut back = String::new();
+                    for &b in &script {
+                        let x = if b { d.next_back() } else { d.next() };
+                        match x {
+                            Some(c) if b => back.insert(0, c),
+                            Some(c) => out.push(c),
+                            None => break,
+                        }
+                    }
+                    drop(d);
+                    out.push('|');
+                    out.push_str(&back);
+                    out
+                }),
+            )
+        }
+        6 | 7 => {
+            let c = ALPHABET[ctx.rng.below(ALPHABET.len())].chars().next().unwrap();
+            added = c.len_utf8();
+            ctx.begin(format!("{} {c:?}", if op == 6 { "push" } else { "try_push" }));
+            let g = v.grow().unwrap();
+            (
+                real_do(|| {
+                    if op == 6 {
+                        g.push(c);
+                        Ok(String::new())
+                    } else {
+                        g.try_push(c).map(|_| String::new())
+                    }
+                }),
+                model_do(|| {
+                    model.push(c);
+                    String::new()
+                }),
+            )
+        }
+        8 | 9 => {
+            let s = text(&mut ctx.rng, 12);
+            added = s.len();
+            ctx.begin(format!("{} {s:?}", if op == 8 { "push_str" } else { "try_push_str" }));
+            let g = v.grow().unwrap();
+            (
+                real_do(|| {
+                    if op == 8 {
+                        g.push_str(&s);
+                        Ok(String::new())
+                    } else {
+                        g.try_push_str(&s).map(|_| String::new())
+                    }
+                }),
+                model_do(|| {
+                    model.push_str(&s);
+                    String::new()
+                }),
+            )
+        }
+        10 | 11 => {
+            let c = ALPHABET[ctx.rng.below(ALPHABET.len())].chars().next().unwrap();
+            let i = gen_idx(&mut ctx.rng, len);
+            idx_arg = Some(i);
+            added = c.len_utf8();
+            ctx.begin(format!("{} {i} {c:?}", if op == 10 { "insert" } else { "try_insert" }));
+            let g = v.grow().unwrap();
+            (
+                real_do(|| {
+                    if op == 10 {
+                        g.insert(i, c);
+                        Ok(String::new())
+                    } else {
+                        g.try_insert(i, c).map(|_| String::new())
+                    }
+                }),
+                model_do(|| {
+                    model.insert(i, c);
+                    String::new()
+                }),
+            )
+        }
+        12 | 13 => {
+            let s = text(&mut ctx.rng, 8);
+            let i = gen_idx(&mut ctx.rng, len);
+            idx_arg = Some(i);
+            added = s.len();
+            ctx.begin(format!("{} {i} {s:?}", if op == 12 { "insert_str" } else { "try_insert_str" }));
+            let g = v.grow().unwrap();
+            (
+                real_do(|| {
+                    if op == 12 {
+                        g.insert_str(i, &s);
+                        Ok(String::new())
+                    } else {
+                        g.try_insert_str(i, &s).map(|_| String::new())
+                    }
+                }),
+                model_do(|| {
+                    model.insert_str(i, &s);
+                    String::new()
+                }),
+            )
+        }
+        14 | 15 => {
+            let s = text(&mut ctx.rng, 8);
+            let r = gen_range(&mut ctx.rng, len);
+            added = s.len();
+            ctx.begin(format!("{} {r:?} {s:?}", if op == 14 { "replace_range" } else { "try_replace_range" }));
+            let g = v.grow().unwrap();
+            (
+                real_do(|| {
+                    if op == 14 {
+                        g.replace_range(r, &s);
+                        Ok(String::new())
+                    } else {
+                        g.try_replace_range(r, &s).map(|_| String::new())
+                    }
+                }),
+                model_do(|| {
+                    model.replace_range(r, &s);
+                    String::new()
+                }),
+            )
+        }
+        16 | 17 => {
+            let r = gen_range(&mut ctx.rng, len);
+            added = model_do(|| std::slice::range(r, ..len).len()).unwrap_or(0);
+            ctx.begin(format!("{} {r:?}", if op == 16 { "extend_from_within" } else { "try_extend_from_within" }));
+            let g = v.grow().unwrap();
+            (
+                real_do(|| {
+                    if op == 16 {
+                        g.extend_from_within(r);
+                        Ok(String::new())
+                    } else {
+                        g.try_extend_from_within(r).map(|_| String::new())
+                    }
+                }),
+                model_do(|| {
+                    model.extend_from_within(r);
+                    String::new()
+                }),
+            )
+        }
+        _ => {
+            let kind = ctx.rng.below(3) as u8;
+            let t = text(&mut ctx.rng, 5);
+            let tail = text(&mut ctx.rng, 4);
+            let num = ctx.rng.next() % 100000;
+            added = t.len() + tail.len() + 12;
+            ctx.begin(format!("write!(.., FailingDisplay({kind}), {num}, {tail:?})"));
+            let d = FailingDisplay(kind.min(1), t.clone());
+            let g = v.grow().unwrap();
+            (
+                real_do(|| Ok(format!("{:?}", g.write_fmt3(&d, num, &tail).is_ok()))),
+                model_do(|| {
+                    let d = FailingDisplay(kind.min(1), t.clone());
+                    format!("{:?}", write!(model, "{d}<{num}>{tail}").is_ok())
+                }),
+            )
+        }
+    };
+    if let Some(i) = idx_arg {
+        if i <= len && !is_boundary_arg(&before, i) {
+            ctx.ev("nonboundary_index");
+        }
+    }
+    let refused = ctx.refused();
+    // the model has already been advanced: a fixed string is full when the result would not fit
+    let _ = added;
+    let full = fixed && modl.is_ok() && model.len() > cap0;
+    let is_try = matches!(op, 7 | 9 | 11 | 13 | 15 | 17);
+    let mut resync = false;
+    match (real, modl) {
+        (Real::Injected, _) => {
+            ctx.ev("panic_injected");
+            resync = true;
+        }
+        (Real::Ok(r), Ok(m)) => {
+            if refused && op == 18 {
+                // fmt::Write can only report a formatting error; what was written before stays
+                if r != "false" {
+                    let tail: Vec<String> = ctx.mon.as_ref().unwrap().borrow().log.iter().rev().take(4).map(|e| format!("{e:?}")).collect();
+                    ctx.viol("C07", format!("ok_after_refusal:{}", v.family()), format!("{} :: {}", ctx.desc, tail.join(" | ")));
+                }
+                resync = true;
+            } else if full && op == 18 {
+                // a full fixed string reports a formatting error and keeps what fitted
+                if r != "false" {
+                    ctx.viol("C09", "fixed_string_accepted_more_than_capacity".into(), format!("write! {len}+.. > {cap0}"));
+                }
+                resync = true;
+            } else if r != m {
+                ctx.viol("C09", format!("returned_value_differs:{}:{}", v.family(), opname(&ctx.desc)), format!("real {r:?} model {m:?}"));
+            }
+            if full && op != 18 {
+                ctx.viol("C09", "fixed_string_accepted_more_than_capacity".into(), format!("{len}+{added} > {cap0}"));
+            }
+            if refused && added > 0 && op != 18 {
+                ctx.viol("C07", format!("ok_after_refusal:{}", v.family()), ctx.desc.clone());
+            }
+        }
+        (Real::Ok(r), Err(())) => {
+            ctx.viol("C09", format!("no_panic_where_std_panics:{}:{}", v.family(), opname(&ctx.desc)), format!("returned {r:?}; string was {before:?}"));
+            resync = true;
+        }
+        (Real::Panic(_), Err(())) => ctx.ev("str_panic_matched"),
+        (Real::Panic(msg), Ok(_)) => {
+            if full && (msg.contains("fixed size") || msg.contains("does not have space")) {
+                ctx.rep.count("fixed_full_rejected");
+            } else if is_try {
+                ctx.viol("C07", format!("try_method_panicked:{}:{}", v.family(), opname(&ctx.desc)), msg);
+            } else {
+                ctx.viol("C09", format!("panic_where_std_does_not:{}:{}", v.family(), opname(&ctx.desc)), format!("{msg}; string was {before:?}"));
+            }
+            resync = true;
+        }
+        (Real::Err, _) => {
+            if !(full || refused) {
+                ctx.viol("C07", format!("try_method_failed_without_cause:{}:{}", v.family(), opname(&ctx.desc)), ctx.desc.clone());
+            }
+            if v.as_str() != before {
+                ctx.viol("C07", format!("failed_operation_changed_collection:{}:{}", v.family(), opname(&ctx.desc)), format!("before {before:?} after {:?}", v.as_str()));
+            }
+            resync = true;
+        }
+        (Real::AllocPanic, _) => {
+            if is_try {
+                ctx.viol("C07", format!("try_method_panicked:{}:{}", v.family(), opname(&ctx.desc)), "allocation-error panic".into());
+            }
+            if v.as_str() != before && op != 18 {
+                ctx.viol("C07", format!("failed_operation_changed_collection:{}:{}", v.family(), opname(&ctx.desc)), format!("before {before:?} after {:?}", v.as_str()));
+            }
+            resync = true;
+        }
+    }
+    // the raw bytes are valid UTF-8, whatever happened
+    let (addr, n) = v.raw();
+    let bytes = unsafe { std::slice::from_raw_parts(addr as *const u8, n) };
+    if std::str::from_utf8(bytes).is_err() {
+        ctx.viol("C09", format!("invalid_utf8_contents:{}:{}", v.family(), opname(&ctx.desc)), format!("bytes {:x?} after {}", &bytes[..n.min(32)], ctx.desc));
+        // nothing more can be trusted
+        *model = String::from_utf8_lossy(bytes).into_owned();
+        return;
+    }
+    if resync {
+        *model = v.as_str().to_string();
+    } else if v.as_str() != model.as_str() {
+        ctx.viol("C09", format!("contents_differ:{}:{}", v.family(), opname(&ctx.desc)), format!("real {:?} model {:?}", v.as_str(), model));
+        *model = v.as_str().to_string();
+    }
+    if v.capacity() < n {
+        ctx.viol("C09", format!("capacity_below_len:{}", v.family()), format!("{} < {n}", v.capacity()));
+    }
+}
+
+fn opname(desc: &str) -> String {
+    desc.split(|c: char| c == ' ' || c == '(').next().unwrap_or("?").to_string()
+}
+
+pub fn run_str_history<A, S>(rep: &mut Report, p: &CollParams, hist: u64, seed: u64, fail: FailPlan) -> u64
+where
+    A: MonHandle + BaseAllocator<S::GuaranteedAllocated>,
+    S: BumpAllocatorSettings,
+{
+    let rng = Rng::new(seed);
+    let fam = hist % 5;
+    let cfg = format!("str{}/{}{}/{}", fam, if S::UP { "U" } else { "D" }, S::MIN_ALIGN, A::NAME);
+    let mon: Shared = Rc::new(RefCell::new(MonState::new(if p.thick { Policy::thick() } else { Policy::thin() }, FailPlan::default(), seed)));
+    set_current(Some(mon.clone()));
+    tr::reset_ledger();
+    rep.histories += 1;
+    let mut ctx = VCtx { rng, rep, cfg, hist, op: 0, desc: String::new(), mon: Some(mon.clone()), viols: 0, trace: Vec::new(), leaked: BTreeSet::new(), leaked_z: 0, injected: 0, hit: 0 };
+    if let Err(pl) = guarded(|| body::<A, S>(&mut ctx, p, fam, fail)) {
+        match classify(&pl) {
+            PanicKind::Msg(m) => ctx.viol("C09", format!("unexpected_panic:{}", crate::arena::msg_sig(&m)), format!("{} :: {m}", ctx.desc)),
+            k => ctx.viol("C09", format!("unexpected_panic:{k:?}"), ctx.desc.clone()),
+        }
+    }
+    tr::set_fuel(None);
+    if ctx.viols == 0 {
+        let mut m = mon.borrow_mut();
+        m.check_quiescent();
+        let probs: Vec<_> = m.problems.drain(..).collect();
+        let leaked = m.live_count;
+        drop(m);
+        for (sig, d) in probs {
+            ctx.viol("C05", sig, d);
+        }
+        if leaked != 0 {
+            ctx.viol("C07", "chunk_never_released".into(), format!("{leaked} grants"));
+        }
+    }
+    set_current(None);
+    let h = mix(&[hash_str(&ctx.cfg), hash_str(&ctx.trace.join(";"))]);
+    ctx.rep.nontrivial.insert(h);
+    ctx.rep.states.insert(mix(&[hash_str(&ctx.cfg), ctx.hit]));
+    if ctx.rep.samples.len() < 2 && ctx.trace.len() > 4 {
+        let s = format!("[{} hist {hist} seed {seed}] {}", ctx.cfg, ctx.trace.iter().take(20).cloned().collect::<Vec<_>>().join(" ; "));
+        ctx.rep.samples.push(s);
+    }
+    mon.borrow().alloc_calls
+}
+
+fn run_ops(v: &mut dyn StrLike, model: &mut String, ctx: &mut VCtx, n: usize) {
+    for _ in 0..n {
+        if ctx.viols > 3 {
+            break;
+        }
+        step(v, model, ctx);
+    }
+}
+
+fn random_bytes(rng: &mut Rng) -> Vec<u8> {
+    let mut v = Vec::new();
+    for _ in 0..rng.range(0, 10) {
+        match rng.below(8) {
+            0 => v.push(rng.below(256) as u8),
+            1 => v.extend_from_slice(&[0xF0, 0x9F]),           // truncated 4-byte sequence
+            2 => v.extend_from_slice(&[0xED, 0xA0, 0x80]),     // encoded surrogate
+            3 => v.extend_from_slice(&[0xC0, 0xAF]),           // overlong
+            4 => v.push(0x80 + rng.below(64) as u8),           // stray continuation
+            _ => v.extend_from_slice(ALPHABET[rng.below(ALPHABET.len())].as_bytes()),
+        }
+    }
+    v
+}
+
+fn random_u16s(rng: &mut Rng) -> Vec<u16> {
+    let mut v = Vec::new();
+    for _ in 0..rng.range(0, 10) {
+        match rng.below(6) {
+            0 => v.push(0xD800 + rng.below(0x400) as u16), // lone high surrogate
+            1 => v.push(0xDC00 + rng.below(0x400) as u16), // lone low surrogate
+            2 => v.extend_from_slice(&[0xD83D, 0xDE00]),   // valid pair
+            _ => v.extend(ALPHABET[rng.below(ALPHABET.len())].encode_utf16()),
+        }
+    }
+    v
+}
+
+fn body<A, S>(ctx: &mut VCtx, p: &CollParams, fam: u64, fail: FailPlan)
+where
+    A: MonHandle + BaseAllocator<S::GuaranteedAllocated>,
+    S: BumpAllocatorSettings,
+{
+    let mon = ctx.mon.clone().unwrap();
+    ctx.begin("init arena".into());
+    let Ok(mut bump) = Bump::<A, S>::try_new_in(A::with(&mon)) else { return };
+    if ctx.rng.bool() {
+        let _ = bump.try_alloc_str("xyz");
+    }
+    if ctx.rng.chance(1, 3) {
+        let cap = bump.stats().capacity();
+        bump.scoped(|s| {
+            let _ = s.try_alloc_slice_fill(cap + 40, 1u8);
+        });
+    }
+    mon.borrow_mut().fail = fail;
+    let base0 = mon.borrow().alloc_calls;
+    mon.borrow_mut().fail.fail_calls.iter_mut().for_each(|k| *k += base0);
+    if let Some(k) = mon.borrow_mut().fail.fail_from.as_mut() {
+        *k += base0;
+    }
+    let init = text(&mut ctx.rng, 10);
+    let mut model = init.clone();
+    match fam {
+        0 => {
+            ctx.begin(format!("create BumpBox<str> {init:?}"));
+            let Ok(mut b) = bump.try_alloc_str(&init) else { return };
+            run_ops(&mut b, &mut model, ctx, p.ops);
+            // split_off on the boxed str: every byte index
+            for _ in 0..3 {
+                let len = model.len();
+                let r = gen_range(&mut ctx.rng, len);
+                ctx.begin(format!("BumpBox<str>::split_off {r:?}"));
+                let exp = model_do(|| {
+                    let mut m = model.clone();
+                    let d: String = m.drain(r).collect();
+                    (m, d)
+                });
+                let got = guarded(|| b.split_off(r));
+                check_split(ctx, "BumpBox<str>", exp, got.map(|x| x.to_string()), &b, &mut model, r);
+            }
+        }
+        1 => {
+            let cap = init.len() + ctx.rng.range(0, 40);
+            ctx.begin(format!("create FixedBumpString cap {cap} {init:?}"));
+            let Ok(mut f) = FixedBumpString::try_with_capacity_in(cap, &bump) else { return };
+            f.push_str(&init);
+            run_ops(&mut f, &mut model, ctx, p.ops);
+            for _ in 0..3 {
+                let len = model.len();
+                let r = gen_range(&mut ctx.rng, len);
+                ctx.begin(format!("FixedBumpString::split_off {r:?}"));
+                let exp = model_do(|| {
+                    let mut m = model.clone();
+                    let d: String = m.drain(r).collect();
+                    (m, d)
+                });
+                let got = guarded(|| f.split_off(r));
+                check_split(ctx, "FixedBumpString", exp, got.map(|x| x.as_str().to_string()), &f, &mut model, r);
+            }
+        }
+        2 | 3 => {
+            ctx.begin(format!("create BumpString {init:?}"));
+            let s = bump.as_scope();
+            let Ok(mut v) = BumpString::try_from_str_in(&init, s) else { return };
+            run_ops(&mut v, &mut model, ctx, p.ops);
+            for _ in 0..2 {
+                let len = model.len();
+                let r = gen_range(&mut ctx.rng, len);
+                ctx.begin(format!("BumpString::split_off {r:?}"));
+                let exp = model_do(|| {
+                    let mut m = model.clone();
+                    let d: String = m.drain(r).collect();
+                    (m, d)
+                });
+                let got = guarded(|| v.split_off(r));
+                check_split(ctx, "BumpString", exp, got.map(|x| x.as_str().to_string()), &v, &mut model, r);
+            }
+            if fam == 3 {
+                ctx.begin("BumpString::into_cstr".into());
+                if let Ok(Ok(c)) = guarded(|| v.try_into_cstr()) {
+                    check_cstr(ctx, c.to_bytes_with_nul(), &model, "into_cstr");
+                }
+            }
+            // decoding constructors
+            for _ in 0..4 {
+                let bytes = random_bytes(&mut ctx.rng);
+                ctx.begin(format!("from_utf8 / from_utf8_lossy_in {bytes:x?}"));
+                if std::str::from_utf8(&bytes).is_err() {
+                    ctx.ev("invalid_utf8_input");
+                }
+                let lossy = guarded(|| BumpString::try_from_utf8_lossy_in(&bytes, s).map(|x| x.as_str().to_string()));
+                match lossy {
+                    Ok(Ok(x)) => {
+                        let m = String::from_utf8_lossy(&bytes);
+                        if x != *m {
+                            ctx.viol("C09", "from_utf8_lossy_differs".into(), format!("{bytes:x?}: {x:?} vs {m:?}"));
+                        }
+                        if x.contains('\u{FFFD}') {
+                            ctx.ev("lossy_replaced");
+                        }
+                    }
+                    Ok(Err(_)) => {}
+                    Err(pl) => ctx.viol("C09", "from_utf8_lossy_panicked".into(), format!("{:?}", classify(&pl))),
+                }
+                if let Ok(Ok(mut bv)) = guarded(|| BumpVec::try_with_capacity_in(bytes.len(), s)) {
+                    if bv.try_extend_from_slice_copy(&bytes).is_ok() {
+                        let r = guarded(|| BumpString::from_utf8(bv).map(|x| x.as_str().to_string()).map_err(|_| ()));
+                        match r {
+                            Ok(r) => {
+                                let m = String::from_utf8(bytes.clone()).map_err(|_| ());
+                                if r != m {
+                                    ctx.viol("C09", "from_utf8_differs".into(), format!("{bytes:x?}: {r:?} vs {m:?}"));
+                                }
+                            }
+                            Err(pl) => ctx.viol("C09", "from_utf8_panicked".into(), format!("{:?}", classify(&pl))),
+                        }
+                    }
+                }
+                let u = random_u16s(&mut ctx.rng);
+                ctx.begin(format!("from_utf16_in / lossy {u:x?}"));
+                match guarded(|| BumpString::try_from_utf16_in(&u, s).map(|r| r.map(|x| x.as_str().to_string()).map_err(|_| ()))) {
+                    Ok(Ok(r)) => {
+                        let m = String::from_utf16(&u).map_err(|_| ());
+                        if r != m {
+                            ctx.viol("C09", "from_utf16_differs".into(), format!("{u:x?}: {r:?} vs {m:?}"));
+                        }
+                    }
+                    Ok(Err(_)) => {}
+                    Err(pl) => ctx.viol("C09", "from_utf16_panicked".into(), format!("{:?}", classify(&pl))),
+                }
+                match guarded(|| BumpString::try_from_utf16_lossy_in(&u, s).map(|x| x.as_str().to_string())) {
+                    Ok(Ok(x)) => {
+                        let m = String::from_utf16_lossy(&u);
+                        if x != m {
+                            ctx.viol("C09", "from_utf16_lossy_differs".into(), format!("{u:x?}: {x:?} vs {m:?}"));
+                        }
+                    }
+                    Ok(Err(_)) => {}
+                    Err(pl) => ctx.viol("C09", "from_utf16_lossy_panicked".into(), format!("{:?}", classify(&pl))),
+                }
+            }
+            // C-string constructors on the arena
+            let t = text(&mut ctx.rng, 10);
+            ctx.begin(format!("alloc_cstr_from_str / alloc_cstr_fmt {t:?}"));
+            if let Ok(Ok(c)) = guarded(|| s.try_alloc_cstr_from_str(&t)) {
+                check_cstr(ctx, c.to_bytes_with_nul(), &t, "alloc_cstr_from_str");
+            }
+            if let Ok(Ok(c)) = guarded(|| s.try_alloc_cstr_fmt(format_args!("{t}{}", 17))) {
+                check_cstr(ctx, c.to_bytes_with_nul(), &format!("{t}17"), "alloc_cstr_fmt");
+            }
+            // formatting with a failing Display
+            let d = FailingDisplay(1, t.clone());
+            ctx.begin("try_alloc_fmt with a Display that fails".into());
+            match guarded(|| s.try_alloc_fmt(format_args!("{d}")).map(|b| b.to_string())) {
+                Ok(Ok(x)) => ctx.viol("C09", "alloc_fmt_ignored_formatting_error".into(), x),
+                Ok(Err(_)) => {}
+                Err(pl) => ctx.viol("C07", "try_method_panicked:try_alloc_fmt".into(), format!("{:?}", classify(&pl))),
+            }
+            match guarded(|| s.alloc_fmt(format_args!("{}", FailingDisplay(0, t.clone()))).to_string()) {
+                Ok(x) => {
+                    if x != t {
+                        ctx.viol("C09", "alloc_fmt_contents_differ".into(), format!("{x:?} vs {t:?}"));
+                    }
+                }
+                Err(pl) => {
+                    if classify(&pl) != PanicKind::AllocError {
+                        ctx.viol("C09", "alloc_fmt_panicked".into(), format!("{:?}", classify(&pl)));
+                    }
+                }
+            }
+        }
+        _ => {
+            ctx.begin(format!("create MutBumpString {init:?}"));
+            let s = bump.as_mut_scope();
+            let Ok(mut v) = MutBumpString::try_from_str_in(&init, s) else { return };
+            run_ops(&mut v, &mut model, ctx, p.ops);
+            if ctx.rng.bool() {
+                ctx.begin("MutBumpString::into_boxed_str".into());
+                let b = v.into_boxed_str();
+                if &*b != model.as_str() {
+                    ctx.viol("C15", "finalised_contents_differ:MutBumpString".into(), format!("{:?} vs {model:?}", &*b));
+                }
+                ctx.ev("commit_mut");
+            } else {
+                ctx.begin("MutBumpString::into_cstr".into());
+                if let Ok(Ok(c)) = guarded(|| v.try_into_cstr()) {
+                    check_cstr(ctx, c.to_bytes_with_nul(), &model, "MutBumpString::into_cstr");
+                }
+            }
+        }
+    }
+    ctx.begin("drop arena".into());
+    drop(bump);
+}
+
+fn check_cstr(ctx: &mut VCtx, got: &[u8], text: &str, what: &str) {
+    let mut exp: Vec<u8> = text.as_bytes().iter().copied().take_while(|b| *b != 0).collect();
+    exp.push(0);
+    if got != exp {
+        ctx.viol("C09", format!("cstr_contents_differ:{what}"), format!("{got:x?} vs {exp:x?}"));
+    }
+    ctx.ev("cstr");
+}
+
+fn check_split(ctx: &mut VCtx, fam: &str, exp: Result<(String, String), ()>, got: Result<String, Box<dyn std::any::Any + Send>>, rest: &dyn StrLike, model: &mut String, r: (Bound<usize>, Bound<usize>)) {
+    match (exp, got) {
+        (Ok((m, d)), Ok(g)) => {
+            if g != d || rest.as_str() != m {
+                ctx.viol("C16", format!("split_off_parts_differ:{fam}"), format!("{r:?}: removed {g:?} rest {:?}; expected {d:?} / {m:?}", rest.as_str()));
+            }
+            *model = rest.as_str().to_string();
+            ctx.ev("split");
+        }
+        (Err(()), Ok(g)) => {
+            ctx.viol("C09", format!("no_panic_where_std_panics:{fam}:split_off"), format!("{r:?} on {model:?} returned {g:?}"));
+            *model = rest.as_str().to_string();
+        }
+        (Ok(_), Err(p)) => {
+            ctx.viol("C09", format!("panic_where_std_does_not:{fam}:split_off"), format!("{r:?} on {model:?}: {:?}", classify(&p)));
+            *model = rest.as_str().to_string();
+        }
+        (Err(()), Err(_)) => {
+            ctx.ev("str_panic_matched");
+            *model = rest.as_str().to_string();
+        }
+    }
+    let (addr, n) = rest.raw();
+    let bytes = unsafe { std::slice::from_raw_parts(addr as *const u8, n) };
+    if std::str::from_utf8(bytes).is_err() {
+        ctx.viol("C09", format!("invalid_utf8_contents:{fam}:split_off"), format!("{bytes:x?}"));
+    }
+}
